@@ -190,6 +190,8 @@ class Run:
         Props/<id>.v to read Print Assumptions.  Fills self.obligations."""
         props = COQ / "Props" / ("%s.v" % self.pid)
         units = [self.pid]
+        # further theorem files of the same property (Props/C02m.v next to Props/C02.v): same treatment
+        units += sorted(q.stem for q in (COQ / "Props").glob("%s[a-z]*.v" % self.pid))
         if "dfield" in strip_coq_comments(props.read_text()) and (COQ / "Props" / "Domain.v").exists():
             # theorems quantified over the abstract differential field: the inhabitedness of that structure
             # (Props/Domain.v, instance in Core/DFieldInst.v) is an obligation of the same run
